@@ -99,6 +99,10 @@ func c06Materialize(wd string, f map[string]interface{}, n int) string {
 	}
 	bare1 := map[string]string{"bare-same": "  bare:\n", "bare-different": "  bare:\n", "main-bare-different": "  bare: {driver: overlay}\n"}[redef]
 	i1 += "services:\n  s1: " + c06Svc + "\n  s1x: {extends: {service: s1}}\nnetworks:\n  shared: {driver: bridge}\n" + bare1 + "secrets:\n  sec1: {file: ./sec.txt}\n" + secExtra + "configs:\n  cfg1: {file: ./cfg.txt}\n" + cfgExtra
+	if n%4 == 1 {
+		// the included file ends with a second document that adds nothing
+		i1 += "\n---\nservices: {}\n"
+	}
 	c06Write(wd, "inc1/compose.yaml", i1)
 	if b("dotenv1") {
 		c06Write(wd, "inc1/.env", "V=inc1env\nW=w1\n")
@@ -119,6 +123,10 @@ func c06Materialize(wd string, f map[string]interface{}, n int) string {
 	case "bare-different":
 		i2 += "networks:\n  bare: {driver: overlay}\n"
 	}
+	if n%4 == 1 {
+		// the included file ends with a second document that adds nothing
+		i2 += "\n---\nservices: {}\n"
+	}
 	c06Write(wd, "inc2/compose.yaml", i2)
 	// ---- n1
 	n1 := ""
@@ -129,6 +137,10 @@ func c06Materialize(wd string, f map[string]interface{}, n int) string {
 		n1 += "include:\n  - ../compose.yaml\n"
 	}
 	n1 += "services:\n  sn: " + c06Svc + "\nvolumes:\n  vn: {labels: {v: \"${V:-none}\"}}\n"
+	if n%4 == 1 {
+		// the included file ends with a second document that adds nothing
+		n1 += "\n---\nservices: {}\n"
+	}
 	c06Write(wd, "inc1/nested/compose.yaml", n1)
 	c06Write(wd, "inc1/nested.env", "V=nestedcustom\n")
 	if b("dotenvn") {
